@@ -3,7 +3,7 @@ From Coq Require Import List NArith String Bool.
 From V Require Import Base.Strings Base.Result Model.Registry Model.Settings Model.Subst
   Model.TypePath Model.Derives Model.Generate Model.Emit Model.Equal Model.Switches Model.Inputs
   Proofs.GenProofs Proofs.SortDedup Proofs.TpMap Proofs.SubstMap Proofs.EmitMap Proofs.FramesIR
-  Proofs.FramesGen Proofs.Frames.
+  Proofs.FramesGen Proofs.Frames Proofs.FrameRel.
 Import ListNotations.
 Open Scope string_scope. Open Scope list_scope.
 
@@ -212,14 +212,11 @@ Print Assumptions C09_compact_marker.
     (any outcome) are related by the one-token renaming.  [root2] is arbitrary; the old root
     must not be a generator literal nor occur among the caller's other inputs.
 
-    NOT proved here (the remaining frames of DESIGN.md C09_orthogonal_.. ): the alloc-prefix,
-    compact-path and bits-path frames.  They replace a token LIST by another list, so they are
-    not instances of the token-renaming lemma [C09_gen_emit_map]; they need an inductively
-    defined alignment relation (as the run-time checker [frame_tokens] uses) and a second
-    simultaneous induction over resolver and emitter.  The docs / codec frames are proved at IR
-    level (section 1) together with [C09_emit_module_map]; their token-level form "erasing the
-    [#[doc = ..]] / [#[codec(..)]] groups of both outputs gives equal lists" is likewise not
-    derived here. *)
+    The alloc-prefix, compact-path and bits-path frames replace a token LIST by another list;
+    they are proved in section 6 below with the alignment relation [frame_rel].  The docs /
+    codec frames are proved at IR level (section 1) together with [C09_emit_module_map]; their
+    token-level form "erasing the [#[doc = ..]] / [#[codec(..)]] groups of both outputs gives
+    equal lists" is not derived here. *)
 Theorem C09_root_rename :
   forall r s root2 teq,
     ~ gen_lit (s_docs s) (s_codec s) (s_root s) ->
@@ -228,3 +225,119 @@ Theorem C09_root_rename :
     rmap (map (rename_tok (s_root s) root2)) (gen_emit r s teq).
 Proof. exact root_rename. Qed.
 Print Assumptions C09_root_rename.
+
+(** * 6. The list-replacing switches: alloc path, compact path, bits path.
+    [frame_rel a1 a2] (Model/Switches.v) is the alignment generated by: a list aligns with
+    itself; the list [a1] aligns with the list [a2]; alignments concatenate.  [res_rel R]: both
+    outcomes [Ok] with [R]-related token lists, or the SAME error / panic.
+    The frames hold for EVERY registry, settings and [teq] - no freshness hypothesis is needed,
+    because no decision of the generator inspects path tokens (freshness of the alloc tokens
+    would only make the alignment unique).  Specified substitutes are covered: there the tokens of
+    the resolved arguments (which contain the alloc / compact / bits paths) are spliced into the
+    printed substitute path, and the statement for the resolver is "the path tokens are
+    frame-related" ([tpath_rel]). *)
+
+(** the general theorem: any relation on token lists that is reflexive and closed under
+    concatenation is preserved by generation + emission, from settings that agree except for
+    related alloc / compact / bits paths *)
+Theorem C09_list_frame_general :
+  forall (R : tokens -> tokens -> Prop),
+    (forall l, R l l) ->
+    (forall x1 x2 y1 y2, R x1 x2 -> R y1 y2 -> R (x1 ++ y1) (x2 ++ y2)) ->
+    forall r s1 s2, settings_rel R s1 s2 ->
+    forall teq, res_rel R (gen_emit r s1 teq) (gen_emit r s2 teq).
+Proof. exact gen_emit_rel. Qed.
+Print Assumptions C09_list_frame_general.
+
+Theorem C09_alloc_frame :
+  forall r s a1 a2 teq,
+    res_rel (frame_rel (alloc_tokens a1) (alloc_tokens a2))
+            (gen_emit r (set_alloc a1 s) teq) (gen_emit r (set_alloc a2 s) teq).
+Proof. exact alloc_frame. Qed.
+Print Assumptions C09_alloc_frame.
+
+Theorem C09_compact_path_frame :
+  forall r s c1 c2 teq,
+    res_rel (frame_rel c1 c2)
+            (gen_emit r (set_compact (Some c1) s) teq) (gen_emit r (set_compact (Some c2) s) teq).
+Proof. exact compact_frame. Qed.
+Print Assumptions C09_compact_path_frame.
+
+Theorem C09_bits_path_frame :
+  forall r s b1 b2 teq,
+    res_rel (frame_rel b1 b2)
+            (gen_emit r (set_bits (Some b1) s) teq) (gen_emit r (set_bits (Some b2) s) teq).
+Proof. exact bits_frame. Qed.
+Print Assumptions C09_bits_path_frame.
+
+(** the three switches changed together *)
+Theorem C09_list_switches_frame :
+  forall r s a1 a2 c1 c2 b1 b2 teq,
+    res_rel (frame_rel3 (alloc_tokens a1) (alloc_tokens a2) c1 c2 b1 b2)
+            (gen_emit r (set_alloc a1 (set_compact (Some c1) (set_bits (Some b1) s))) teq)
+            (gen_emit r (set_alloc a2 (set_compact (Some c2) (set_bits (Some b2) s))) teq).
+Proof. exact list_switches_frame. Qed.
+Print Assumptions C09_list_switches_frame.
+
+(** the pieces, for the alloc switch: printing a path, path resolution (the resolved paths are
+    equal up to frame-related token lists, Specified substitutes included), generation *)
+Theorem C09_alloc_frame_tp_tokens :
+  forall a1 a2 t1 t2,
+    tpath_rel (frame_rel a1 a2) t1 t2 -> res_rel (frame_rel a1 a2) (tp_tokens a1 t1) (tp_tokens a2 t2).
+Proof. exact alloc_frame_tp_tokens. Qed.
+Print Assumptions C09_alloc_frame_tp_tokens.
+
+Theorem C09_alloc_frame_resolve :
+  forall r s a1 a2 fuel id is_field parents orig,
+    res_rel (tpath_rel (frame_rel (alloc_tokens a1) (alloc_tokens a2)))
+            (resolve_rec r (set_alloc a1 s) fuel id is_field parents orig)
+            (resolve_rec r (set_alloc a2 s) fuel id is_field parents orig).
+Proof. exact alloc_frame_resolve. Qed.
+Print Assumptions C09_alloc_frame_resolve.
+
+Theorem C09_alloc_frame_generate :
+  forall r s a1 a2 teq,
+    res_rel (items_rel (frame_rel (alloc_tokens a1) (alloc_tokens a2)))
+            (generate r (set_alloc a1 s) teq) (generate r (set_alloc a2 s) teq).
+Proof. exact alloc_frame_generate. Qed.
+Print Assumptions C09_alloc_frame_generate.
+
+(** for related settings: item tokens and the module emitter *)
+Theorem C09_frame_type_ir_tokens :
+  forall (R : tokens -> tokens -> Prop),
+    (forall l, R l l) ->
+    (forall x1 x2 y1 y2, R x1 x2 -> R y1 y2 -> R (x1 ++ y1) (x2 ++ y2)) ->
+    forall s1 s2, R (alloc_tokens (s_alloc s1)) (alloc_tokens (s_alloc s2)) ->
+    forall a b, ir_rel R a b -> res_rel R (type_ir_tokens s1 a) (type_ir_tokens s2 b).
+Proof. exact type_ir_tokens_rel. Qed.
+Print Assumptions C09_frame_type_ir_tokens.
+
+Theorem C09_frame_emit_module :
+  forall (R : tokens -> tokens -> Prop),
+    (forall l, R l l) ->
+    (forall x1 x2 y1 y2, R x1 x2 -> R y1 y2 -> R (x1 ++ y1) (x2 ++ y2)) ->
+    forall s1 s2, R (alloc_tokens (s_alloc s1)) (alloc_tokens (s_alloc s2)) -> s_root s1 = s_root s2 ->
+    forall m1 m2, items_rel R m1 m2 -> res_rel R (emit_module s1 m1) (emit_module s2 m2).
+Proof. exact emit_module_rel. Qed.
+Print Assumptions C09_frame_emit_module.
+
+(** what an alignment means: a sequence of blocks, each a pair of equal lists or the pair
+    [(a1, a2)]; in particular every token of one output occurs in the other output or in the
+    switched path, and switching a path to itself changes nothing *)
+Theorem C09_frame_rel_blocks :
+  forall a1 a2 l1 l2, frame_rel a1 a2 l1 l2 ->
+    exists bs : list (tokens * tokens),
+      l1 = List.concat (map fst bs) /\ l2 = List.concat (map snd bs) /\
+      Forall (fun b => fst b = snd b \/ b = (a1, a2)) bs.
+Proof. exact frame_rel_blocks. Qed.
+Print Assumptions C09_frame_rel_blocks.
+
+Theorem C09_frame_rel_tokens :
+  forall a1 a2 l1 l2, frame_rel a1 a2 l1 l2 ->
+    (forall w, In w l2 -> In w l1 \/ In w a2) /\ (forall w, In w l1 -> In w l2 \/ In w a1).
+Proof. exact frame_rel_tokens. Qed.
+Print Assumptions C09_frame_rel_tokens.
+
+Theorem C09_frame_rel_id : forall a l1 l2, frame_rel a a l1 l2 -> l1 = l2.
+Proof. exact frame_rel_id. Qed.
+Print Assumptions C09_frame_rel_id.
